@@ -1058,6 +1058,7 @@ func (r *popRun) step(ctx context.Context, pop *genetics.Population, gen int, pr
 type hbSpec struct {
 	Sizes, Ages, Lags []int
 	Stagnant          bool // the population-level stagnation counter is far past DropOffAge+5 (delta coding at the next epoch)
+	Unsorted          bool // genes are listed in descending innovation order (legal for the readers and for duplication, not produced by the operators)
 }
 
 var hbSpecs = map[string]hbSpec{
@@ -1071,6 +1072,8 @@ var hbSpecs = map[string]hbSpec{
 	"hbd1": {Sizes: []int{7, 6}, Ages: []int{3, 4}, Lags: []int{0, 0}, Stagnant: true},
 	"hbd2": {Sizes: []int{6, 5, 4}, Ages: []int{7, 3, 2}, Lags: []int{1, 0, 0}, Stagnant: true},
 	"hbd3": {Sizes: []int{13}, Ages: []int{5}, Lags: []int{0}, Stagnant: true},
+	// one sizeable species whose genomes list their genes out of innovation order
+	"hbu": {Sizes: []int{8}, Ages: []int{3}, Lags: []int{0}, Unsorted: true},
 }
 
 // hbGenome: the XOR start genome plus k hidden nodes, each splitting gene 2->4
@@ -1104,7 +1107,18 @@ func buildHandBuilt(sp hbSpec, opts *neat.Options) *genetics.Population {
 			s.MaxFitnessEver = 0
 		}
 		for i := 0; i < size; i++ {
-			g := hbGenome(id, si, i).Build()
+			spec := hbGenome(id, si+func() int {
+				if sp.Unsorted {
+					return 2
+				}
+				return 0
+			}(), i)
+			if sp.Unsorted {
+				for a, b := 0, len(spec.Genes)-1; a < b; a, b = a+1, b-1 {
+					spec.Genes[a], spec.Genes[b] = spec.Genes[b], spec.Genes[a]
+				}
+			}
+			g := spec.Build()
 			o, _ := genetics.NewOrganism(0, g, 1)
 			o.Species = s
 			s.VAddOrganism(o)
@@ -1117,6 +1131,9 @@ func buildHandBuilt(sp hbSpec, opts *neat.Options) *genetics.Population {
 	if sp.Stagnant {
 		pop.EpochsHighestLastChanged = 1000
 		pop.HighestFitness = 1e12
+	}
+	if sp.Unsorted {
+		maxK += 2
 	}
 	pop.VSetCounters(int64(3+2*maxK), int32(5+maxK))
 	opts.PopSize = id
